@@ -17,7 +17,8 @@ Changed(c0, c1) == {[t |-> t, k |-> k, v |-> c1[t][k]] : t \in Tries, k \in Keys
 Slots == Tries \X Keys \X (0..MaxV)
 Set1(c, x) == [c EXCEPT ![x[1]][x[2]] = x[3]]
 PresentSlots(c) == {<<t, k, 0>> : <<t, k>> \in {y \in Tries \X Keys : c[y[1]][y[2]] # 0}}
-Usable == {c \in DOMAIN names : Readable(c)}
+\* parents: states whose nodes are in their own buckets (the clean cache of the real database is filled by the replayer's own sweeps)
+Usable == {c \in DOMAIN names : Nodes(c) \subseteq disk \cup dirty}
 HeadOr(S) == IF head \in S THEN {head} ELSE R(S)
 
 Bag == <<"u1", "u1", "u2", "u3", "ud", "fork", "forkd", "rev", "empty", "commit", "commit", "warm", "reopen">>
